@@ -497,7 +497,85 @@ def ogg_opus_trailer_sweep(ctx, checks):
                     _v(ctx, "C08", "OggOpus: file loads with tags after delete", dict(dd, tags=repr(re)[:80]))
 
 
-OGG_SCENARIOS = (ogg_lacing_sweep, ogg_opus_trailer_sweep)
+def ogg_foreign_paging(ctx, checks):
+    """page layouts of other writers (libogg: a comment packet of several KiB inside one page that ends in the unfinished
+    setup header; comment on pages of its own ending on a page boundary; one page of up to 65025 bytes) for every Ogg
+    kind with padding: edits that fit into the padding, saved with a callback answering info.padding and with the default
+    policy.  info.padding is the old padding minus the growth of the comment list; the file keeps its size, every page
+    its place, every page without comment data its bytes (C09); the other packets are unchanged (C02); the comment reads
+    back (C01)"""
+    if not {"C01", "C02", "C09"} & set(checks):
+        return
+    from . import synth_ogg as SO
+    from .shared import ogg_pages_in_place
+    for kname in ("OggVorbis", "OggTheora", "OggOpus", "OggSpeex"):
+        kind = KINDS[kname]
+        c = kind.codec
+        ident = _ogg_ident(kname)
+        if ident is None:
+            continue
+        lay = []
+        for total in (1400, 7000):
+            pk = SO.comment_packet(c, SO.VENDOR, SO.ITEMS, total)
+            if c in SO.SETUP:
+                lay.append(("shared page, comment of %d bytes" % total, SO.headers_shared_page(c, ident, pk)))
+            lay.append(("one page, comment of %d bytes" % total, SO.headers_own_pages(c, ident, pk, page_size=65025)))
+        lay.append(("own pages ending on a page boundary", SO.headers_own_pages(c, ident, SO.comment_packet(c, SO.VENDOR, SO.ITEMS, 8160))))
+        for lname, f0 in lay:
+            try:
+                w0 = kind.walk(f0)
+                kind.open(io.BytesIO(f0))
+            except Exception as e:
+                ctx.disagree("fam.directed", "ogg_foreign_paging: layout not usable: %s" % str(e)[:80], {"kind": kname, "layout": lname})
+                continue
+            old_title = dict(w0["tags"]["items"])[b"TITLE"]
+            for delta, policy in ((0, "keep"), (0, "default"), (-5, "keep"), (-5, "default"), (300, "keep"), (300, "default")):
+                d = {"kind": kname, "layout": lname, "title_growth": delta, "policy": policy}
+                title = "T" * (len(old_title) + delta)
+                log = []
+
+                def cb(info):
+                    r = info.padding if policy == "keep" else info.get_default_padding()
+                    log.append((info.padding, info.size, r))
+                    return r
+                try:
+                    o = kind.open(io.BytesIO(f0))
+                    o.tags["title"] = [title]
+                    b = io.BytesIO(f0)
+                    o.save(b, padding=cb)
+                    out = b.getvalue()
+                    w1 = kind.walk(out)
+                except (mutagen.MutagenError, W.Bad):
+                    continue
+                ctx.oracle_cases += 1
+                ctx.count("ogg:foreign-paging")
+                ctx.case((kname, lname, delta, policy))
+                if "C02" in checks and w1["foreign"] != w0["foreign"]:
+                    lab = next((a[0] for a, c_ in zip(w0["foreign"], w1["foreign"]) if a != c_), "?")
+                    _v(ctx, "C02", "%s: packets other than the comment packet altered by save" % kname, dict(d, element=lab))
+                if "C01" in checks and dict((k.lower(), v) for k, v in w1["tags"]["items"]).get(b"title") != title.encode():
+                    _v(ctx, "C01", "%s: independent decoding of the saved bytes differs from what was set" % kname, d)
+                if "C09" not in checks:
+                    continue
+                if len(log) != 1:
+                    _v(ctx, "C09", "%s: the padding callback was called %d times" % (kname, len(log)), d)
+                    continue
+                p_in, _, r = log[0]
+                if p_in != w0["padding"] - delta:
+                    _v(ctx, "C09", "%s: info.padding is not the space left in the old comment packet" % kname,
+                       dict(d, info_padding=p_in, old_padding=w0["padding"]))
+                if w1["padding"] != r:
+                    _v(ctx, "C09", "%s: padding found in the saved file differs from what the callback returned" % kname,
+                       dict(d, returned=r, measured=w1["padding"]))
+                if r == p_in and len(out) != len(f0):
+                    _v(ctx, "C09", "%s: returning info.padding changed the file size" % kname, dict(d, info_padding=p_in, delta=len(out) - len(f0)))
+                elif r == p_in:
+                    msg = ogg_pages_in_place(w0, w1, f0, out)
+                    if msg:
+                        _v(ctx, "C09", "%s: returning info.padding moved or altered data outside the comment packet" % kname, dict(d, detail=msg))
+
+
+OGG_SCENARIOS = (ogg_lacing_sweep, ogg_opus_trailer_sweep, ogg_foreign_paging)
 
 
 def run(ctx, checks, only=None):
